@@ -246,6 +246,13 @@ def q(s: str) -> str:
     return "$'" + "".join(out) + "'"
 
 
+def used_bodies(s):
+    """the nested bodies of a statement that are really rendered (a nest template has one or two %B slots)"""
+    if len(s) == 1:
+        return []
+    return [s[k] for k in (1, 2)[:max(1, NEST[s[0]].count("%B"))]]
+
+
 def render_stmt(s, counter):
     if len(s) == 1:
         return LEAF[s[0]]
@@ -500,9 +507,8 @@ def classify(case, pieces):
     def walk(b):
         for s in b:
             ids.add(s[0])
-            if len(s) > 1:
-                walk(s[1])
-                walk(s[2])
+            for sub in used_bodies(s):
+                walk(sub)
     for f in case["funcs"]:
         walk(f["body"])
     for i in ids:
@@ -658,8 +664,8 @@ def isolate_cause(case, pieces, workdir):
                 inner = {"group": "group", "group_redirect": "group", "subshell": "subshell"}.get(s[0], ctx_)
                 if s[0] in ("comsub_block", "nested_func", "nested_func_kw"):
                     inner = "top"  # parsed by process_scope again
-                walk(s[1], inner)
-                walk(s[2], inner)
+                for sub in used_bodies(s):
+                    walk(sub, inner)
     for f in case["funcs"]:
         walk(f["body"], "top")
     loc = case["locale"]
